@@ -174,3 +174,29 @@ func (ex *Exec) useUFun(uf *UFun) {
 		ex.AxiomNames = append(ex.AxiomNames, ax.Name)
 	}
 }
+
+// refineUFun records exact facts about an uninterpreted application for counterexample refinement
+// (never used in proofs): bitlen and words tables for magnitudes below 2^512.
+func (ex *Exec) refineUFun(name string, t *Term, args []*Term) {
+	key := "refine:" + t.String()
+	if ex.constSeen == nil {
+		ex.constSeen = map[string]bool{}
+	}
+	if ex.constSeen[key] || len(args) != 1 {
+		return
+	}
+	ex.constSeen[key] = true
+	x := IAbs(args[0])
+	switch name {
+	case "bitlen":
+		ex.Refine = append(ex.Refine, Implies(Eq(args[0], IntC(0)), Eq(t, IntC(0))))
+		for k := 1; k <= 520; k++ {
+			ex.Refine = append(ex.Refine, Implies(And(IGe(x, IntBig(Pow2(k-1))), ILt(x, IntBig(Pow2(k)))), Eq(t, IntC(int64(k)))))
+		}
+	case "words":
+		ex.Refine = append(ex.Refine, Implies(Eq(args[0], IntC(0)), Eq(t, IntC(0))))
+		for k := 1; k <= 8; k++ {
+			ex.Refine = append(ex.Refine, Implies(And(IGe(x, IntBig(Pow2(64*(k-1)))), ILt(x, IntBig(Pow2(64*k)))), Eq(t, IntC(int64(k)))))
+		}
+	}
+}
